@@ -6,7 +6,12 @@ EXTENDS Naturals, Sequences, Bitwise
 
 W32Zero == <<0, 0>>
 
-IsW32(w) == /\ w \in Seq(Nat) /\ Len(w) = 2 /\ w[1] < 65536 /\ w[2] < 65536
+\* TLC represents [i \in 1..n |-> e] as an unevaluated lambda and re-evaluates e on EVERY
+\* application (no memoization).  Concatenation is Java-overridden and returns a concrete
+\* tuple, so Strict forces one evaluation of all elements.  Semantically the identity.
+Strict(seq) == seq \o <<>>
+
+IsW32(w) == /\ DOMAIN w = 1..2 /\ w[1] \in 0..65535 /\ w[2] \in 0..65535
 
 \* n must fit a TLC integer (n < 2^31)
 W32FromNat(n) == <<n % 65536, (n \div 65536) % 65536>>
@@ -31,16 +36,16 @@ W32FromBytesLE(bs) == <<bs[1] + 256 * bs[2], bs[3] + 256 * bs[4]>>
 W32ToBytesLE(w) == <<w[1] % 256, w[1] \div 256, w[2] % 256, w[2] \div 256>>
 
 \* 4*n bytes -> n words and back
-W32SeqFromBytesLE(bs) == [i \in 1..(Len(bs) \div 4) |->
-                             <<bs[4 * i - 3] + 256 * bs[4 * i - 2], bs[4 * i - 1] + 256 * bs[4 * i]>>]
-W32SeqToBytesLE(ws) == [j \in 1..(4 * Len(ws)) |->
+W32SeqFromBytesLE(bs) == Strict([i \in 1..(Len(bs) \div 4) |->
+                             <<bs[4 * i - 3] + 256 * bs[4 * i - 2], bs[4 * i - 1] + 256 * bs[4 * i]>>])
+W32SeqToBytesLE(ws) == Strict([j \in 1..(4 * Len(ws)) |->
                            LET w == ws[((j - 1) \div 4) + 1]
                                k == (j - 1) % 4
                            IN IF k = 0 THEN w[1] % 256
                               ELSE IF k = 1 THEN w[1] \div 256
                               ELSE IF k = 2 THEN w[2] % 256
-                              ELSE w[2] \div 256]
+                              ELSE w[2] \div 256])
 
 \* bytewise xor of two equally long byte strings
-BytesXor(a, b) == [i \in 1..Len(a) |-> a[i] ^^ b[i]]
+BytesXor(a, b) == Strict([i \in 1..Len(a) |-> a[i] ^^ b[i]])
 ========================================================================
